@@ -82,7 +82,19 @@ def _match(p, n, b):
     for fld in p._fields:
         if fld in ('ctx', 'type_comment', 'kind'):
             continue
-        if wild_call and fld == 'keywords' and not p.keywords:
+        if wild_call and fld == 'keywords':
+            # keywords of the pattern must occur among the actual ones
+            for pk in p.keywords:
+                found = False
+                for nk in n.keywords:
+                    b2 = dict(b)
+                    if pk.arg == nk.arg and _match(pk.value, nk.value, b2):
+                        b.clear()
+                        b.update(b2)
+                        found = True
+                        break
+                if not found:
+                    return False
             continue
         if fld in ('orelse', 'finalbody') and not getattr(p, fld):
             continue      # unspecified in the pattern
